@@ -1,6 +1,8 @@
 import Driver.Ops.C01
+import Driver.Ops.C02
+import LentilVerif.Model.Plane
 import LentilVerif.Model.Energy
-/-! Model driver ops for C05: `normalize_power` (`propagate_dft` cases run C02's op `c02.propagate_dft`, `propagate_fft` cases C09's op `c09.propagate_fft`: the models over the generated window / grid kernels). -/
+/-! Model driver ops for C05: `c05.insert_weighted` (`Wavefront.insert(out, weight)` of the C02 model's output fields through the C07 model `wfInsert`), `normalize_power` (`propagate_dft` cases run C02's op `c02.propagate_dft`, `propagate_fft` cases C09's op `c09.propagate_fft`: the models over the generated window / grid kernels). -/
 open Lean Lentil Drv
 namespace Ops.C05
 open Ops.C01
@@ -21,7 +23,26 @@ def handle (op : String) (j : Json) : Option (R Json) :=
   | "c05.normalize" => some do
       let a ← cfArrOfJson j
       let p ← getFloat j "power"
-      pure (okJ [("a", cfArrToJson (normalizePower a p))])
+      -- a call that omits `power`: the model takes the default regenerated from the signature
+      match optVal j "default" with
+      | some (Json.bool true) => pure (okJ [("a", cfArrToJson (normalizePowerDefault (R := Float) a))])
+      | _ => pure (okJ [("a", cfArrToJson (normalizePower a p))])
+  | "c05.insert_weighted" => some do
+      -- `Wavefront.insert(acc, weight)` of a propagated wavefront: the C02 model's output fields accumulated into a constant
+      -- array by the C07 loop model `viewRun Gen.insertWiring` with default weight 1 (loop wiring regenerated, accumulation statement of `field.insert` regenerated)
+      let fs ← (← getArr j "fields").mapM Ops.C02.tfieldOfJson
+      let dx ← getFloats j "dx"; let du ← getFloats j "du"
+      let wl ← getFloat j "wl"; let z ← getFloat j "z"
+      let os ← getInt j "os"
+      let al := dftAlpha dx[0]! dx[1]! du[0]! du[1]! wl z os
+      let sh ← getInts j "shape"; let ps ← getInts j "prop_shape"
+      let mask ← Ops.C02.maskOfJson j
+      let out := (propagateDft fs.toList al.1 al.2 sh[0]! sh[1]! ps[0]! ps[1]! os mask).map Ops.C02.freezeF
+      let base ← getFloat j "base"; let w ← getFloat j "weight"
+      let acc : Arr CF := { s0 := sh[0]! * os, s1 := sh[1]! * os, get := fun _ _ => ⟨base, 0⟩ }
+      match viewRun Gen.insertWiring (⟨1, 0⟩ : CF) (fun z : CF => (⟨z.re * z.re + z.im * z.im, 0⟩ : CF)) out acc ⟨w, 0⟩ with
+      | some a => pure (okJ [("acc", cfArrToJson (freeze a))])
+      | none => pure (errJ "ValueError")
   | _ => none
 
 end Ops.C05
